@@ -93,7 +93,7 @@ def depq_contracts():
     cs.append(c)
     cs.append(Contract("<depq>", "DEPQ.insert", params={"item": "ref:SearchDataItem?", "priority": "real"}, result="none",
                        modifies=["self.gitems", "self.gkeys", "self.glen", "self.gcnt"], allocates=False,
-                       ghost_results={"gp": "int"}, requires=depq_inv("self"),
+                       ghost_results={"gp": "int"}, requires=depq_inv("self") + ["item is not None"],
                        ensures=depq_inv("self") + [
                            "implies(self.maxlen == 0 or old(self.glen) < self.maxlen, "
                            "self.gcnt == seq_store(old(self.gcnt), item, old(self.gcnt[item]) + 1))",
@@ -148,6 +148,8 @@ DEPQ_FACTS = ["{q}.glen >= 0",
             "implies({q}.maxlen != 0, {q}.maxlen >= 1 and {q}.glen <= {q}.maxlen)",
             "forall_ref('SearchDataItem', lambda qo: {q}.gcnt[qo] >= 0)",
             "forall(0, {q}.glen, lambda qi: {q}.gcnt[{q}.gitems[qi]] >= 1)",
+            # no entry is None: `insert` is only ever given an item (its pre-condition, an obligation at every call site)
+            "forall(0, {q}.glen, lambda qi: {q}.gitems[qi] is not None)",
             # an item with a positive entry count has an entry (DEPQ's own .items bookkeeping)
             "forall_ref('SearchDataItem', lambda qo: implies({q}.gcnt[qo] >= 1, "
             "exists(0, {q}.glen, lambda qi: {q}.gitems[qi] is qo)))"]
@@ -413,6 +415,7 @@ def sd_queue_contracts(dual=False):
                            modifies=qmods + ["self.curIter"], allocates=False, requires=WF + qinv + unb,
                            ensures=qinv + [
                                # non-empty queue: the first entry, whose queued characteristic is maximal
+                               "implies(old(%s.glen) >= 1, old(%s.gcnt[result]) >= 1)" % (GQ, GQ),
                                "implies(old(%s.glen) >= 1, result is old(%s.gitems[0]) and %s.glen == old(%s.glen) - 1 and "
                                "forall(0, old(%s.glen), lambda qi: old(%s.gkeys[qi]) <= old(%s.gkeys[0])) and "
                                "%s and %s and "
